@@ -149,10 +149,16 @@ impl OneshotSender {
 //@@ subst `ArcReceiverUnsettledMap` => `Option<OrderedMap<DeliveryTag, Option<DeliveryState>>>` rule=R4
 //@@ end
 pub enum LinkRelayError { UnattachedHandle, TransferFrameToSender }
-/// the point where the relay -- i.e. the SESSION task -- awaits `tx.send(..)` on the bounded queue to the link endpoint
-pub fn session_task_waits_for_room(Ghost(queue_has_room): Ghost<bool>)
-    requires queue_has_room,     // [C15.relay.session-task-never-waits-for-the-application] the session engine never awaits a queue that only the application drains: neither the link credit nor the session window is looked at before a transfer is queued, so a peer that sends transfers beyond the credit (65 537 tiny frames at zero credit, with default buffers) fills the queue, the session engine blocks in this send for ever -- session.end() never returns -- and, one queue further up, so does the connection engine (connection.close() hangs, every session on the connection is dead); no error is reported and nothing is sent to the peer
-{}
+impl<T> ChanSender<T> {
+    /// the point where the relay -- i.e. the SESSION task -- awaits `tx.send(..)` on the bounded queue to the link endpoint
+    #[verifier::external_body]
+    pub fn send_when_room(&mut self, v: T, Ghost(queue_has_room): Ghost<bool>) -> (r: Result<(), ChanSendError>)
+        requires queue_has_room,     // [C15.relay.session-task-never-waits-for-the-application] the session engine never awaits a queue that only the application drains: neither the link credit nor the session window is looked at before a transfer is queued, so a peer that sends transfers beyond the credit (65 537 tiny frames at zero credit, with default buffers) fills the queue, the session engine blocks in this send for ever -- session.end() never returns -- and, one queue further up, so does the connection engine (connection.close() hangs, every session on the connection is dead); no error is reported and nothing is sent to the peer
+        ensures
+            r is Ok ==> final(self).sent@ == old(self).sent@.push(v) && final(self).failures@ == old(self).failures@,
+            r is Err ==> final(self).sent@ == old(self).sent@ && final(self).failures@ == old(self).failures@ + 1,
+    { unimplemented!() }
+}
 /// the point where a relay builds the flow it writes in answer to the peer (echo, drain answer), under ITS copy of the output handle
 pub fn relay_handle_live(Ghost(handle_now): Ghost<Option<OutputHandle>>, output_handle: &OutputHandle)
     requires handle_now == Some(*output_handle),     // [C11.handle.relay-answers-under-a-live-handle] the flow a relay writes in answer to the peer goes out under the handle the link STILL holds: after the link's detach has been sent the number may already belong to another link of the session (slab re-use), which the peer then credits with an answer that is not its own
@@ -242,7 +248,7 @@ impl LinkRelay<OutputHandle> {
 //@@ fn file=fe2o3-amqp/src/link/mod.rs impl=`impl LinkRelay<OutputHandle>` name=on_incoming_transfer
 //@@ subst `InputHandle::from(` => `handle_to_input(` rule=R16
 //@@ subst `|_v0|` => `|_v0: ChanSendError|` rule=optional-R5
-//@@ subst `let sent = tx .send(` => `session_task_waits_for_room(Ghost(queue_has_room)); let sent = tx .send(` rule=R9
+//@@ subst `tx .send(LinkFrame::Transfer { __E1 })` => `tx.send_when_room(LinkFrame::Transfer { __E1 }, Ghost(queue_has_room))` rule=R9
 //@@ entry
         let ghost queue_has_room: bool = arbitrary();      // whether the bounded queue to the link endpoint has a free slot at this moment: it is drained only by the APPLICATION's recv()
 //@@ spec
